@@ -8,6 +8,7 @@ NA = {}
 na_file = os.path.join(here, "not_applicable.json")
 if os.path.exists(na_file):
     NA = json.load(open(na_file))
+CLAIMED = set(open(os.path.join(here, "claimed.txt")).read().split())   # maintained by hand: reviewed checks only
 checks = []
 claimed = set()
 engines = []
@@ -17,7 +18,7 @@ for p in props:
     if not os.path.exists(f):
         continue
     P = importlib.import_module(pid.lower()).PROP
-    if not getattr(P, "claimed", False):
+    if pid not in CLAIMED:
         continue
     claimed.add(pid)
     checks.append({
